@@ -44,6 +44,23 @@ def canon_function(fn) -> int:
     changed = 0
     counts = _own_names(fn)
     params = {a.arg for a in fn.args.posonlyargs + fn.args.args + fn.args.kwonlyargs}
+    # C1 candidates: a name ALL of whose occurrences are `t = E` directly followed by `return t`
+    pairs: dict[str, int] = {}
+    for node in ast.walk(fn):
+        for _fld, lst in _blocks(node):
+            for a_, b_ in zip(lst, lst[1:]):
+                if isinstance(b_, ast.Return) and isinstance(b_.value, ast.Name) and isinstance(a_, (ast.Assign, ast.AnnAssign)) and getattr(a_, "value", None) is not None:
+                    tg_ = a_.targets if isinstance(a_, ast.Assign) else [a_.target]
+                    if len(tg_) == 1 and isinstance(tg_[0], ast.Name) and tg_[0].id == b_.value.id and b_.value.id not in {n.id for n in ast.walk(a_.value) if isinstance(n, ast.Name)}:
+                        pairs[b_.value.id] = pairs.get(b_.value.id, 0) + 1
+        if isinstance(node, ast.Try):
+            for h in node.handlers:
+                for a_, b_ in zip(h.body, h.body[1:]):
+                    if isinstance(b_, ast.Return) and isinstance(b_.value, ast.Name) and isinstance(a_, (ast.Assign, ast.AnnAssign)) and getattr(a_, "value", None) is not None:
+                        tg_ = a_.targets if isinstance(a_, ast.Assign) else [a_.target]
+                        if len(tg_) == 1 and isinstance(tg_[0], ast.Name) and tg_[0].id == b_.value.id and b_.value.id not in {n.id for n in ast.walk(a_.value) if isinstance(n, ast.Name)}:
+                            pairs[b_.value.id] = pairs.get(b_.value.id, 0) + 1
+    mergeable = {nm for nm, k in pairs.items() if counts.get(nm, 0) == 2 * k and nm not in params}
 
     def rewrite_block(stmts: list[ast.stmt]) -> list[ast.stmt]:
         nonlocal changed
@@ -84,7 +101,7 @@ def canon_function(fn) -> int:
             ):
                 tg = st.targets if isinstance(st, ast.Assign) else [st.target]
                 nm = nxt.value.id
-                if len(tg) == 1 and isinstance(tg[0], ast.Name) and tg[0].id == nm and counts.get(nm, 0) == 2 and nm not in params:
+                if len(tg) == 1 and isinstance(tg[0], ast.Name) and tg[0].id == nm and nm in mergeable:
                     new = ast.copy_location(ast.Return(value=st.value), nxt)
                     out.append(new)
                     changed += 1
